@@ -232,6 +232,37 @@ func c19(c *Ctx) {
 		})
 	}
 	R.Floor("C19.index-aligned.lookups", nret, 1)
+	// … and GetGuardianSet hands out nothing but the result of lookup(index) for the index it was
+	// asked for (the "current" set is the requested one only until another update is appended)
+	if ggs := p.Method(pkgXGS, "GuardianSets", "GetGuardianSet"); ggs != nil {
+		lk := p.Method(pkgXGS, "GuardianSets", "lookup")
+		nacc := 0
+		for _, r := range acceptingReturns(ggs) {
+			nacc++
+			good, nl := lk != nil, 0
+			for _, leaf := range valueLeaves(returnValues(r)[0]) {
+				nl++
+				cl, isCall := leaf.(*ssa.Call)
+				if !isCall || cl.Call.StaticCallee() != lk || len(cl.Call.Args) != 2 {
+					// the element access itself, when lookup has been inlined
+					if ld, isLd := leaf.(*ssa.UnOp); isLd && ld.Op == token.MUL {
+						if ia, isIA := ld.X.(*ssa.IndexAddr); isIA && loadedField(ia.X) == lst {
+							if prm, isP := ia.Index.(*ssa.Parameter); isP && prm.Name() == "index" {
+								continue
+							}
+						}
+					}
+					good = false
+					continue
+				}
+				if prm, isP := cl.Call.Args[1].(*ssa.Parameter); !isP || prm.Name() != "index" {
+					good = false
+				}
+			}
+			R.Check("C19.index-aligned", R.Key("C19.index-aligned", shortFn(ggs), "returns-lookup"), c.rel(p.Pos(instrPos(r))), "GetGuardianSet(index) returns the list element looked up for that index", good && nl > 0, "returned value = "+facts.Term(returnValues(r)[0]))
+		}
+		R.Floor("C19.index-aligned.returns", nacc, 1)
+	}
 
 	// ---- dedup
 	apply := must(p.Method(pkgXDedup, "Deduplicator", "Apply"), "Deduplicator.Apply")
